@@ -403,6 +403,10 @@ def bounded_layer_definitions(tier, seed):
     seqs = []
     for n in range(1, 5 if tier == "quick" else 6):
         seqs += [list(c) for c in itertools.product(LAYER_OPS, repeat=n)]
+    # module / layer names are arbitrary strings compared exactly: padded, differently cased and dotted variants are different names, and the same padded name twice is a duplicate
+    odd_ops = [("layer", "L1"), ("layer", "L2"), ("layer", "L1 "), ("cm", "M1 "), ("cm", ["M1 "]), ("cm", "M1"), ("cm", " M1"), ("cm", ["M1\n"]), ("cm", "m1"), ("cm", ["M1.x", "M1"])]
+    for n in range(2, 5):
+        seqs += [list(c) for c in itertools.product(odd_ops, repeat=n) if any(isinstance(a, str) and a != a.strip() or isinstance(a, list) and any(x != x.strip() for x in a) for _, a in c)][:: (1 if tier != "quick" else 2)]
     for _ in range(3000 if tier == "quick" else 300000):
         seqs.append([rng.choice(LAYER_OPS) for _ in range(rng.randint(5, 8))])
     size = max(1, len(seqs) // 32)
